@@ -76,6 +76,46 @@ DEFAULT_ENV = {"log": 0, "tmp": 0, "cwd": "same"}
 
 FP_REUSE = "C15|wellformed-or-absent|Search.__init__|evaluator used by an earlier search, no results.csv in log_dir"
 
+# the Python class of the container in which a multi-objective run-function hands back its objectives ("tuple/list" of the
+# supported return forms: every instance of tuple or list; the plain object or the value of the key "objective" of the
+# dict form).  A NumPy array is not one of them: HPOJob.standardize_output rejects it (TypeError).
+SEQ_KINDS = ("tuple", "list", "namedtuple", "tuple-subclass", "list-subclass")
+
+
+class ObjectiveTuple(tuple):
+    """a user's own tuple class"""
+
+
+class ObjectiveList(list):
+    """a user's own list class"""
+
+
+_NAMEDTUPLES = {}
+
+
+def _seq(kind, values):
+    """the objectives `values` in a container of class `kind`"""
+    xs = list(values)
+    if kind == "list":
+        return xs
+    if kind == "namedtuple":
+        import collections
+
+        n = len(xs)
+        if n not in _NAMEDTUPLES:
+            _NAMEDTUPLES[n] = collections.namedtuple("Objectives", [f"f{i}" for i in range(n)])
+        return _NAMEDTUPLES[n](*xs)
+    if kind == "tuple-subclass":
+        return ObjectiveTuple(xs)
+    if kind == "list-subclass":
+        return ObjectiveList(xs)
+    return tuple(xs)
+
+
+def _seq_of(run):
+    """container class of the objectives of a run (single-objective searches return a number: no container)"""
+    return run.get("seq", "tuple") if run.get("nobj", 1) > 1 else "tuple"
+
 
 def _headerless(scn, lines, phase=None):
     """the signature of 10e: an evaluator that already dumped appends to a new file (rows without a header
@@ -251,6 +291,7 @@ def _make_search(run, idx, log_dir, side, reuse=None):
         fd = os.open(os.path.join(side, "done.log"), os.O_WRONLY | os.O_CREAT | os.O_APPEND, 0o644)
         nobj, fail, batch, sleep = run["nobj"], run.get("fail", "none"), run["batch"], run.get("sleep", False)
         hostile, hseed = _is_hostile(run), run.get("seed", 1)
+        seqk = _seq_of(run)
         cell = {"idx": idx, "first": None}
         ctl = _SELFKILL  # harness-made kill points that are not system calls on results.csv
 
@@ -277,7 +318,7 @@ def _make_search(run, idx, log_dir, side, reuse=None):
             elif nobj == 1:
                 out = x + k
             else:
-                out = tuple(x * (i + 1) - k * (1 - i) for i in range(nobj))
+                out = _seq(seqk, (x * (i + 1) - k * (1 - i) for i in range(nobj)))
             return out if meta is None else {"objective": out, "metadata": meta}
 
         ev = Evaluator.create(run_function, method="serial", method_kwargs={"num_workers": run["batch"]})
@@ -1495,6 +1536,25 @@ def _scenarios(ck):
             # (C04's recorded finding): the first call of such a run is made long enough to see a success
             if r["nobj"] > 1 and r.get("fail") == "first" and r["calls"] and isinstance(r["calls"][0], int) and not r.get("reuse"):
                 r["calls"][0] = max(r["calls"][0], r["batch"] + 1)
+    # the container class of a multi-objective output (SEQ_KINDS): the core scenarios cycle through the classes from a
+    # seeded offset (consecutive multi-objective scenarios - among them the ones with failing evaluations - get different
+    # classes), the others draw; an evaluator that is handed on keeps its run-function.  Drawn from a generator of its own:
+    # the other dimensions of a seed stay what they were.
+    import random
+
+    srng = random.Random(common.hash_int(f"C15/objective-container/{ck.seed}"))
+    soff, nmulti, core_ids = srng.randrange(len(SEQ_KINDS)), 0, {id(x) for x in core}
+    for s in core + extra + same:
+        for i, r in enumerate(s["runs"]):
+            if r.get("reuse") and i:
+                if "seq" in s["runs"][i - 1]:
+                    r["seq"] = s["runs"][i - 1]["seq"]
+            elif r["nobj"] > 1:
+                if id(s) in core_ids:
+                    r["seq"] = SEQ_KINDS[(soff + nmulti) % len(SEQ_KINDS)]
+                    nmulti += 1
+                else:
+                    r["seq"] = srng.choice(SEQ_KINDS)
     # the environment of the process: log_dir / the system temporary directory on each pair of writable file systems,
     # the working directory same / parent of a relative log_dir / changed after construction / elsewhere.  The core
     # scenarios cycle through the pairs (from a seeded offset), the others draw.  Thorough: three compact scenarios that
@@ -1646,6 +1706,8 @@ def _failer(ck, scn, case, state, phase, opts, own):
             return
         state["failed"] = True
         tag = _cells_tag(scn, own) if hostile is None else (",cells=csv-special" if hostile else "")
+        if clause in _SEQ_CLAUSES:
+            tag += _seq_tag(scn, own if hostile is None else -1)
         etag = _ENV_TAG.get(common.canon(scn), "")
         ck.fail(_fp_nd(scn) if clause is None else f"C15|{clause}|{phase}|{opts}{etag}{tag}", what, case, detail)
     return fail
@@ -1656,6 +1718,19 @@ def _cells_tag(scn, own):
     runs = scn["runs"]
     r = runs[own] if 0 <= own < len(runs) else runs[-1]
     return ",cells=csv-special" if _is_hostile(r) else ""
+
+
+# the clauses that look at the objective cells of the rows or at what a loader / a continuing search makes of them: only
+# their fingerprints name the container class (the clauses about the shape of the file and the file protocol do not)
+_SEQ_CLAUSES = ("row-carries-objectives", "cells", "reload", "continue")
+
+
+def _seq_tag(scn, own):
+    """input class of the failing case: the search that owns results.csv (the continuing search is of its kind) gets its
+    objectives in a container that is not a plain tuple"""
+    runs = scn["runs"]
+    r = runs[own] if 0 <= own < len(runs) else runs[-1]
+    return "" if _seq_of(r) == "tuple" else ",objectives=" + _seq_of(r)
 
 
 class _Eval:
@@ -1689,7 +1764,8 @@ def _check_record(ck, ev, scn, rec):
     """L2 on an un-killed run + the end-state oracle (snapshots survive)"""
     case = {"scn": scn, "kill": None}
     if rec.get("err"):
-        ck.fail("C15|search-raises|Search.search|" + scn["runs"][-1]["kind"], "the traced search raised", case, rec["err"][-1500:])
+        ck.fail("C15|search-raises|Search.search|" + scn["runs"][-1]["kind"] + _seq_tag(scn, -1), "the traced search raised", case, rec["err"][-1500:])
+        _check_left_by_raise(ck, ev, scn, rec)
         return None
     if os.WIFSIGNALED(rec["status"]) or os.WEXITSTATUS(rec["status"]) != 0:
         raise HarnessError(f"traced child ended with status {rec['status']}: {rec.get('err')}")
@@ -2038,14 +2114,9 @@ def _selfkill_points(ck, scn, rec):
     return pts[:4] if timed and not ck.thorough else pts
 
 
-def _check_selfkill(ck, ev, scn, sk, res):
-    phase = "dump_jobs_done_to_csv returned" if sk["at"] == "dump" else "run-function returned"
-    case = {"scn": scn, "kill": {"selfkill": sk, "phase": phase}}
-    if not (os.WIFSIGNALED(res["status"]) and os.WTERMSIG(res["status"]) == signal.SIGKILL):
-        ck.count("selfkill-not-reached")  # this execution had fewer dumps / completions than the recorded one
-        return
-    ck.count("kill:" + phase)
-    ck.case(case, nontrivial=True)
+def _owner_from_logs(scn, res):
+    """the search whose results.csv is on disk (and its jobs whose dump call had returned), read off the harness's
+    own logs: the last search that started to act and has dumped something"""
     cur = ([int(m.split()[1]) for m in res["marks"] if m.startswith(("run ", "act "))] or [0])[-1]
     text = res["files"].get("results.csv")
     here = [i for i, r in enumerate(scn["runs"]) if not r.get("elsewhere")]
@@ -2055,7 +2126,34 @@ def _check_selfkill(ck, ev, scn, sk, res):
     else:
         cands = [i for i in here if i <= cur and any(j[0] == i for j in alld)]
         own = max(cands) if cands else cur
-    dumped = [j for j in alld if j[0] == own] if own in here else []
+    return own, ([j for j in alld if j[0] == own] if own in here else [])
+
+
+def _check_left_by_raise(ck, ev, scn, rec):
+    """a search() call that raises is an instant of the search like any other: what it leaves on disk is judged by the
+    same clauses (well formed or absent, rows of finished evaluations, fit_surrogate loads it, a new search continues)"""
+    phase = "search() raised"
+    case = {"scn": scn, "kill": {"phase": phase}}
+    own, dumped = _owner_from_logs(scn, rec)
+    state = {"failed": False}
+    fail = _failer(ck, scn, case, state, phase, "any", own)
+    text = rec["files"].get("results.csv")
+    _judge(ck, ev, scn, case, phase, text, own, rec["done"], dumped, rec.get("post", {}), fail, state)
+    _check_snapshots(ck, scn, None, rec["snaps"], rec["files"], phase, case)
+    _check_post(ck, ev, scn, case, phase, text, rec, fail)
+    ck.case(case, nontrivial=True)
+
+
+def _check_selfkill(ck, ev, scn, sk, res):
+    phase = "dump_jobs_done_to_csv returned" if sk["at"] == "dump" else "run-function returned"
+    case = {"scn": scn, "kill": {"selfkill": sk, "phase": phase}}
+    if not (os.WIFSIGNALED(res["status"]) and os.WTERMSIG(res["status"]) == signal.SIGKILL):
+        ck.count("selfkill-not-reached")  # this execution had fewer dumps / completions than the recorded one
+        return
+    ck.count("kill:" + phase)
+    ck.case(case, nontrivial=True)
+    text = res["files"].get("results.csv")
+    own, dumped = _owner_from_logs(scn, res)
     state = {"failed": False}
     fail = _failer(ck, scn, case, state, phase, "any", own)
     _judge(ck, ev, scn, case, phase, text, own, res["done"], dumped, res.get("post", {}), fail, state)
@@ -2213,15 +2311,16 @@ def _inprocess_slice(ck):
     """a few un-killed scenarios in the check's own process (no strace, no fork), so that the line-coverage
     probe of main.py sees the anchored code; judged by the same end-state oracle"""
     scns = [
-        {"clock": "real", "runs": [{"kind": "random", "nobj": 2, "batch": 2, "calls": [3, 2], "fail": "first"}]},
+        {"clock": "real", "runs": [{"kind": "random", "nobj": 2, "batch": 2, "calls": [3, 2], "fail": "first", "seq": "list"}]},
         {"clock": "const", "runs": [{"kind": "cbo", "nobj": 1, "batch": 2, "calls": [4]},
                                     {"kind": "random", "nobj": 1, "batch": 2, "calls": [2], "reuse": True},
                                     {"kind": "regevo", "nobj": 1, "batch": 2, "calls": [3]}]},
         {"clock": "const", "early": True, "runs": [{"kind": "random", "nobj": 1, "batch": 2, "calls": [2]},
                                                    {"kind": "eds", "nobj": 1, "batch": 2, "calls": [2]}]},
         {"clock": "real", "runs": [{"kind": "random", "nobj": 1, "batch": 2, "calls": [2], "fail": "all"}]},
-        {"clock": "real", "runs": [{"kind": "cbo-dummy", "nobj": 2, "batch": 3, "calls": [{"t": 1}], "sleep": True}]},
-        {"clock": "real", "runs": [{"kind": "cbo", "nobj": 2, "batch": 2, "calls": [3, 2], "fail": "some", "cells": "hostile", "seed": 0}]},
+        {"clock": "real", "runs": [{"kind": "cbo-dummy", "nobj": 2, "batch": 3, "calls": [{"t": 1}], "sleep": True, "seq": "tuple-subclass"}]},
+        {"clock": "real", "runs": [{"kind": "cbo", "nobj": 2, "batch": 2, "calls": [3, 2], "fail": "some", "cells": "hostile", "seed": 0,
+                                    "seq": "namedtuple"}]},
     ]
     ev = _Eval(ck)
     base = tempfile.mkdtemp(prefix="inproc", dir=_scratch())
@@ -2238,29 +2337,31 @@ def _inprocess_slice(ck):
             for d in (ld, side, side2):
                 os.makedirs(d)
             case = {"scn": scn, "kill": None, "in_process": True}
+            phase = "finished"
             try:
                 _program(scn, ld, side)
             except Exception as e:  # noqa
-                ck.fail("C15|search-raises|Search.search|" + scn["runs"][-1]["kind"], "a search run in the check's own process raised", case, repr(e))
-                continue
+                ck.fail("C15|search-raises|Search.search|" + scn["runs"][-1]["kind"] + _seq_tag(scn, -1), "a search run in the check's own process raised", case, repr(e))
+                # what the raising call left on disk is judged like any other instant of the search
+                phase, case = "search() raised", {"scn": scn, "kill": {"phase": "search() raised"}, "in_process": True}
             finally:
                 time.strftime = saved
             files = {n: t for n, t in _read_dir(ld).items() if _is_result_name(n)}
             sidef = _read_dir(side)
             snaps = {n: t for n, t in sidef.items() if n.startswith("snap_")}
             done = _done_jobs([l for l in sidef.get("done.log", "").split("\n") if l])
-            _check_snapshots(ck, scn, None, snaps, files, "finished", case)
+            _check_snapshots(ck, scn, None, snaps, files, phase, case)
             post = _continuation(scn, ld, side2)
             fin = files.get("results.csv")
             own = max(j[0] for j in done) if done else 0
 
             state = {"failed": False}
-            fail = _failer(ck, scn, case, state, "finished", "any", own)
+            fail = _failer(ck, scn, case, state, phase, "any", own)
             dl = [l for l in sidef.get("done.log", "").split("\n") if l]
             dumped = _dumped_jobs([l for l in sidef.get("dumped.log", "").split("\n") if l], own)
-            _judge(ck, ev, scn, case, "finished", fin, own, dl, dumped if fin is not None else [], post, fail, state)
+            _judge(ck, ev, scn, case, phase, fin, own, dl, dumped if fin is not None else [], post, fail, state)
             if post.get("cont") != "ok":
-                ck.fail("C15|continue|finished|any" + (",cells=csv-special" if post.get("cells") == "hostile" else ""),
+                ck.fail(f"C15|continue|{phase}|any" + (",cells=csv-special" if post.get("cells") == "hostile" else "") + _seq_tag(scn, -1),
                         "a new search in the log_dir of a finished search does not run", case, post.get("cont"))
             ck.case(case, nontrivial=True)
             ck.count("in-process scenario")
@@ -2273,7 +2374,8 @@ def _inprocess_slice(ck):
 
 
 def run(ck):
-    ck.rule = ("real RandomSearch/CBO(ET) searches (serial evaluator; 1-3 objectives; batches 1-8; 1-3 search() calls; failing "
+    ck.rule = ("real RandomSearch/CBO(ET) searches (serial evaluator; 1-3 objectives, returned in a plain tuple / list / namedtuple / "
+               "subclass of tuple / subclass of list - plain or as the 'objective' of the dict form; batches 1-8; 1-3 search() calls; failing "
                "evaluations none/first batch/some/all; narrow and wide rows; stored text benign or with CSV-special characters "
                "(categorical value, metadata strings and key, failure label); 1-5 searches per log_dir, real or constant clock; "
                "process environment: log_dir and the system temporary directory (TMPDIR) on each pair of the writable file systems "
@@ -2332,6 +2434,8 @@ def _run_all(ck):
                 ck.count("fail:" + r["fail"])
                 ck.count("cells:" + ("csv-special characters" if _is_hostile(r) else "benign") + (",nobj>=2" if r["nobj"] > 1 else ",nobj=1"))
                 ck.count("wide" if r["wide"] else "narrow")
+                if r["nobj"] > 1:
+                    ck.count("objectives-returned-as:" + _seq_of(r) + (",inside the dict form" if _is_hostile(r) else ""))
             ck.count("clock:" + s["clock"])
             ck.count(_env_key(_env_of(s)))
             if _n_fs() == 1:
